@@ -245,8 +245,26 @@ type treenode struct {
 	parent   inode
 	inodes   map[string]inode
 	fileinfo fileinfo
+	// removed is set (under the node's own lock) when the node
+	// is unlinked by Remove/RemoveAll. Callers that looked the
+	// node up before it was removed, and lock it afterwards, must
+	// not add entries to it: they would be lost.
+	removed bool
 	sync.RWMutex
 	nullnode
+}
+
+// detach marks n as removed, unless it still has children and
+// recursive is false. Caller must have the parent's lock (and must
+// not have n's lock).
+func (n *treenode) detach(recursive bool) bool {
+	n.Lock()
+	defer n.Unlock()
+	if !recursive && len(n.inodes) > 0 {
+		return false
+	}
+	n.removed = true
+	return true
 }
 
 func (n *treenode) FS() FileSystem {
@@ -278,6 +296,10 @@ func (n *treenode) Child(name string, replace func(inode) (inode, error)) (child
 	}
 	if replace == nil {
 		return
+	}
+	if n.removed {
+		// n was unlinked after the caller looked it up.
+		return nil, os.ErrNotExist
 	}
 	newchild, err := replace(child)
 	if err != nil {
@@ -614,7 +636,14 @@ func (fs *fileSystem) remove(name string, recursive bool) error {
 		if node == nil {
 			return nil, os.ErrNotExist
 		}
-		if !recursive && node.IsDir() && node.Size() > 0 {
+		if d, ok := node.(interface{ detach(bool) bool }); ok {
+			// Test emptiness and mark the directory as
+			// removed in one critical section, so nothing
+			// can be added to it in between or afterwards.
+			if !d.detach(recursive) {
+				return node, ErrDirectoryNotEmpty
+			}
+		} else if !recursive && node.IsDir() && node.Size() > 0 {
 			return node, ErrDirectoryNotEmpty
 		}
 		return nil, nil
